@@ -34,6 +34,105 @@ func rulesC18(c *Ctx) {
 	ruleRestoreSwap(c, "C18.RESTORELOCK")
 	ruleC18ReadPath(c)
 	ruleC18View(c)
+	ruleC18ClosureState(c)
+}
+
+// ruleC18ClosureState: a closure that outlives the call that built it (returned, or stored in a field of
+// an object: symbol evaluators, cursor providers, comparators) is shared by every goroutine that uses the
+// object.  It must not write the variables it captured from its builder (a buffer hoisted out of the
+// closure "to save an allocation" is written by all concurrent readers at once).
+func ruleC18ClosureState(c *Ctx) {
+	p := c.P
+	n, bad := 0, 0
+	for _, fn := range c.prodFuncs("ast", "boltz", "objectz") {
+		for _, b := range fn.Blocks {
+			for _, in := range b.Instrs {
+				mc, ok := in.(*ssa.MakeClosure)
+				if !ok || len(mc.Bindings) == 0 {
+					continue
+				}
+				cl, _ := mc.Fn.(*ssa.Function)
+				if cl == nil || cl.Blocks == nil {
+					continue
+				}
+				// does the closure value outlive this call?
+				longLived := ""
+				var follow func(v ssa.Value, depth int)
+				follow = func(v ssa.Value, depth int) {
+					if depth > 3 || longLived != "" {
+						return
+					}
+					for _, r := range *v.Referrers() {
+						switch x := r.(type) {
+						case *ssa.Return:
+							longLived = "returned"
+						case *ssa.Store:
+							if x.Val == v {
+								if _, isFA := x.Addr.(*ssa.FieldAddr); isFA {
+									longLived = "stored in a field"
+								}
+							}
+						case *ssa.MakeInterface:
+							follow(x, depth+1)
+						case *ssa.ChangeType:
+							follow(x, depth+1)
+						case *ssa.Phi:
+							follow(x, depth+1)
+						}
+					}
+				}
+				follow(mc, 0)
+				if longLived == "" {
+					continue
+				}
+				n++
+				// captured variables that are locals of the builder (one instance per built closure)
+				captured := map[*ssa.FreeVar]bool{}
+				for i, bnd := range mc.Bindings {
+					if _, isAlloc := bnd.(*ssa.Alloc); isAlloc && i < len(cl.FreeVars) {
+						captured[cl.FreeVars[i]] = true
+					}
+				}
+				var derives func(v ssa.Value, depth int) *ssa.FreeVar
+				derives = func(v ssa.Value, depth int) *ssa.FreeVar {
+					if depth > 5 || v == nil {
+						return nil
+					}
+					switch x := v.(type) {
+					case *ssa.FreeVar:
+						if captured[x] {
+							return x
+						}
+					case *ssa.UnOp:
+						return derives(x.X, depth+1)
+					case *ssa.IndexAddr:
+						return derives(x.X, depth+1)
+					case *ssa.FieldAddr:
+						return derives(x.X, depth+1)
+					case *ssa.Slice:
+						return derives(x.X, depth+1)
+					}
+					return nil
+				}
+				for _, cb := range cl.Blocks {
+					for _, ci := range cb.Instrs {
+						st, isSt := ci.(*ssa.Store)
+						if !isSt {
+							continue
+						}
+						if fv := derives(st.Addr, 0); fv != nil {
+							bad++
+							c.Bad("C18.CLOSURESTATE", FnName(cl)+": writes captured "+fv.Name(), p.Pos(st.Pos()), "this closure is "+longLived+" by "+FnName(fn)+" and so shared by all users of the object it ends up in, but it writes the variable "+fv.Name()+" captured from its builder: concurrent read transactions overwrite each other's value (and race)")
+						}
+					}
+				}
+			}
+		}
+	}
+	if bad == 0 {
+		c.OK("C18.CLOSURESTATE", "long-lived closures", "-", fmt.Sprintf("%d closure(s) are returned or stored in a field; none writes a variable captured from its builder", n))
+	}
+	c.CallSites(n)
 }
 
 func isInitFn(fn *ssa.Function) bool {
